@@ -429,6 +429,55 @@ fn large_size_history<V: TV>(m: usize, val: &dyn Fn(u64) -> V) -> Result<u64, St
     }
 }
 
+/// A NaN is not a value of the order the tracker maintains ("smallest value ever offered"): offering one may be refused
+/// (a panic is accepted) but must not be stored - afterwards every slot still holds its minimum, the reported maximum
+/// is unchanged, nothing reads as NaN, and NaN is never "possible".  Fresh, half-filled and full trackers, every slot.
+fn nan_offers(m: usize) -> Result<u64, String> {
+    let mut steps = 0u64;
+    for fill in 0..3usize {
+        for slot in 0..m {
+            let r = guarded_mut(|| -> Result<(), String> {
+                let mut t = MaxTracker::<f64>::new(m);
+                let mut mins = vec![f64::MAX; m];
+                for k in 0..m {
+                    if fill == 2 || (fill == 1 && k % 2 == 0) {
+                        let v = 10. + ((k * 7) % 5) as f64;
+                        t.update(k, v);
+                        mins[k] = v;
+                    }
+                }
+                let max_before = t.get_max_value();
+                // the offer itself may be refused by a panic
+                let _ = std::panic::catch_unwind(std::panic::AssertUnwindSafe(|| t.update(slot, f64::NAN)));
+                for k in 0..m {
+                    if t.get_value(k).to_bits() != mins[k].to_bits() {
+                        return Err(format!("m={}: after update({}, NaN) on a tracker with {} of its slots filled, slot {} holds {:?} instead of {:?}", m, slot, ["none", "half", "all"][fill], k, t.get_value(k), mins[k]));
+                    }
+                }
+                if t.get_max_value().to_bits() != max_before.to_bits() {
+                    return Err(format!("m={}: after update({}, NaN) the reported maximum went from {:?} to {:?}", m, slot, max_before, t.get_max_value()));
+                }
+                if let Ok(true) = std::panic::catch_unwind(std::panic::AssertUnwindSafe(|| t.is_update_possible(f64::NAN))) {
+                    return Err(format!("m={}: is_update_possible(NaN) is true", m));
+                }
+                // and the tracker still works
+                t.update(slot, 1.);
+                if t.get_value(slot) != 1. {
+                    return Err(format!("m={}: after update({}, NaN), update({}, 1.0) leaves {:?} in the slot", m, slot, slot, t.get_value(slot)));
+                }
+                Ok(())
+            });
+            steps += 1;
+            match r {
+                Ok(Ok(())) => {}
+                Ok(Err(e)) => return Err(e),
+                Err(p) => return Err(format!("m={}: panic around a NaN offer outside the offer itself: {}", m, p)),
+            }
+        }
+    }
+    Ok(steps)
+}
+
 /// 70000 cycles of (a few updates, reset) on one tracker: after every reset the node array equals a new tracker's
 /// (the read-only probe does not perturb the history)
 fn long_reset_history<V: TV>(m: usize, val: &dyn Fn(u64) -> V) -> Result<u64, String> {
@@ -509,6 +558,19 @@ fn large_sizes(ctx: &Ctx, thorough: bool) -> (usize, u64) {
                         reported = true;
                         ctx.violation(&format!("long-history:{}", vt), &format!("{} tracker, {}", vt, w), json!({"kind": "long-history", "vtype": vt, "m": m}));
                     }
+                }
+            }
+        }
+    }
+    // NaN offers
+    let mut reported = false;
+    for m in (1..=33usize).chain([64, 65, 127, 1000]) {
+        match nan_offers(m) {
+            Ok(n) => steps += n,
+            Err(w) => {
+                if !reported {
+                    reported = true;
+                    ctx.violation("nan-offer", &w, json!({"kind": "nan-offer", "m": m}));
                 }
             }
         }
@@ -626,7 +688,7 @@ pub fn run(ctx: &Ctx) -> i32 {
         "spaces": spaces,
         "direct_sequences_from_new": {"sequences": stats.0, "steps": stats.1, "configs_m_depth": seqs},
         "search_run_twice_counts_equal": true,
-        "large_sizes": {"sizes": nsizes, "checked_steps": lsteps, "what": "every m in 9..=300, 2^k-1,2^k,2^k+1 for k=9..17, 1000, 5000, 50000, 100003 (thorough: 2^20-1..2^20+1, 3000001): one structured 6-phase history per size and value type from new(), every update checked (slot value, reported max against an ordered multiset of slot minima, is_update_possible), whole node array checked after each phase; plus 70000 cycles of (3 updates, reset) for m in {1,2,3,5,8} with the node array compared with a new tracker after every reset; the six-phase history again for m in {1,2,3,8,17,64} with a trace-level logger installed; not exhaustive in the history"},
+        "large_sizes": {"sizes": nsizes, "checked_steps": lsteps, "what": "every m in 9..=300, 2^k-1,2^k,2^k+1 for k=9..17, 1000, 5000, 50000, 100003 (thorough: 2^20-1..2^20+1, 3000001): one structured 6-phase history per size and value type from new(), every update checked (slot value, reported max against an ordered multiset of slot minima, is_update_possible), whole node array checked after each phase; plus 70000 cycles of (3 updates, reset) for m in {1,2,3,5,8} with the node array compared with a new tracker after every reset; the six-phase history again for m in {1,2,3,8,17,64} with a trace-level logger installed; NaN offered to every slot of fresh / half-filled / full f64 trackers for m in 1..33, 64, 65, 127, 1000 (it may be refused but is never stored); not exhaustive in the history"},
     });
     ctx.finish(
         "model_checking",
@@ -640,6 +702,13 @@ pub fn run(ctx: &Ctx) -> i32 {
 }
 
 pub fn replay(_ctx: &Ctx, case: &Value) -> Result<(bool, String), String> {
+    if case["kind"].as_str() == Some("nan-offer") {
+        let m = case["m"].as_u64().ok_or("m")? as usize;
+        return Ok(match nan_offers(m) {
+            Ok(_) => (false, "NaN offers are no-ops".into()),
+            Err(w) => (true, w),
+        });
+    }
     let m = case["m"].as_u64().ok_or("m")? as usize;
     if case["kind"].as_str() == Some("logging") {
         let r = crate::common::with_trace_logging(|| if case["vtype"].as_str() == Some("f64") { large_size_history::<f64>(m, &|x| x as f64 * 0.5) } else { large_size_history::<u32>(m, &|x| x as u32) });
